@@ -96,6 +96,50 @@ def main(argv=None):
             raise AnalysisError(f"only {n_ob} rule instances found, frozen floor is {floor} (rule matches vacuously?)")
         if tier == "thorough" and hasattr(mod, "thorough"):
             mod.thorough(ctx)
+        if tier == "thorough" and not a.repo and not a.replay:
+            # self-validation: every mutant of this property's rules must be reported by this check
+            from . import mutate
+            import concurrent.futures as cf
+            ms = [dict(m, props=[pid]) for m in mutate.load_mutants() if pid in m["props"]]
+            res = []
+            with cf.ProcessPoolExecutor(max_workers=min(16, max(1, len(ms)))) as ex:
+                for mid, status, err, r in ex.map(mutate.run_one, ms):
+                    res.append((mid, status, err))
+            survived = [m for m in res if m[1] == "SURVIVED"]
+            stale = [m for m in res if m[1] == "skip"]
+            ctx.mutants = dict(total=len(res), killed=sum(1 for m in res if m[1] == "killed"), survived=[m[0] for m in survived], stale=[m[0] + ": " + m[2] for m in stale])
+            print(f"[{pid}] self-validation: {ctx.mutants['killed']}/{len(res)} mutants reported, {len(survived)} survived, {len(stale)} stale")
+            # seeded changes written by independent sub-agents (kept under /verif/seeded) that break this property
+            import shutil, subprocess, tempfile
+            seeded = []
+            sdir = os.path.join(VERIF, "seeded")
+            for d in sorted(os.listdir(sdir)) if os.path.isdir(sdir) else []:
+                mp = os.path.join(sdir, d, "meta.json")
+                if not os.path.exists(mp):
+                    continue
+                meta = json.load(open(mp))
+                if pid not in [meta.get("property")] + meta.get("also_breaks", []):
+                    continue
+                tmp = tempfile.mkdtemp(prefix="gxstatic-seeded-")
+                try:
+                    shutil.copytree(os.path.join(prog.repo, "src"), os.path.join(tmp, "src"), ignore=shutil.ignore_patterns("__pycache__"))
+                    pr = subprocess.run(["patch", "-p1", "-s", "-i", os.path.join(sdir, d, "patch.diff")], cwd=tmp, capture_output=True, text=True)
+                    if pr.returncode:
+                        seeded.append((d, "stale"))
+                        continue
+                    q = subprocess.run([sys.executable, "-B", "-m", "gxstatic.run", pid, "--repo", tmp, "--no-evidence"], cwd=VERIF, capture_output=True, text=True)
+                    seeded.append((d, {0: "MISSED", 1: "caught"}.get(q.returncode, "analysis-error")))
+                finally:
+                    shutil.rmtree(tmp, ignore_errors=True)
+            ctx.mutants["seeded"] = seeded
+            print(f"[{pid}] seeded changes: {seeded}")
+            missed = [d for d, st in seeded if st == "MISSED"]
+            if missed:
+                raise AnalysisError(f"seeded changes not reported: {missed}")
+            if survived:
+                raise AnalysisError(f"rules failed their own mutants: {[m[0] for m in survived]}")
+            if len(res) and len(stale) > len(res) // 2:
+                raise AnalysisError(f"more than half of the mutant table is stale for {pid}: {[m[0] for m in stale][:5]}")
     except AnalysisError as e:
         print(f"ANALYSIS-ERROR property={pid}: {e}")
         return 2
@@ -172,6 +216,7 @@ def write_evidence(ctx, pid, tier, seed, wall, viol, known_seen, prog, mod):
             "checker_cmd": f"./check {pid} --tier {tier}",
             "trusted_base": ["CPython ast module", "rule tables in gxstatic/rules (DESIGN.md §3/§4)", "JAX/TFP library semantics (axioms listed in DESIGN.md §7)"],
             "notes": ctx.notes,
+            "self_validation_mutants": getattr(ctx, "mutants", None),
             "exhaustive": True,
         },
         "assumptions": getattr(mod, "ASSUMPTIONS", ["library semantics of JAX/TFP as axiomatised in the rule tables"]),
